@@ -25,19 +25,27 @@ using namespace opensmt;
 // ---------------------------------------------------------------- enode table (typed slots; the argument list follows the Enode)
 struct Slot { Enode e; ERef more[4]; };
 static_assert(offsetof(Slot, more) == sizeof(Enode), "the argument list starts right behind the Enode");
-union RawSlot { Slot s; RawSlot() {} ~RawSlot() {} };
-static RawSlot nodes[NN];
+extern "C" { extern Slot euf_nodes[NN]; }         // defined in euf_rt.c (typed storage, no constructor)
+static_assert(NN <= 8 && sizeof(Slot) <= 128, "native replay storage in euf_rt.c too small");
+#define nodes euf_nodes
 extern "C" Enode & stub_enode(EnodeStore *, ERef r) {
     VASSERT(r.x < NN, "enode reference within the table");
-    return nodes[r.x < NN ? r.x : 0].s.e;
+    return nodes[r.x < NN ? r.x : 0].e;
+}
+// Enode::operator[](i) (the argument list lives behind the object: a flexible array) is answered from the harness's argument table
+static unsigned arg0[NN], arg1[NN];
+extern "C" ERef stub_enode_arg(Enode const * e, size_t i) {
+    unsigned id = e->cid;
+    VASSERT(id < NN && i < 2 && i < e->argSize, "argument index within the enode's argument list");
+    return ERef{i == 0 ? arg0[id < NN ? id : 0] : arg1[id < NN ? id : 0]};
 }
 static void init_node(unsigned i, uint32_t sym, unsigned nargs, unsigned a0, unsigned a1) {
-    Enode & e = nodes[i].s.e;
+    Enode & e = nodes[i].e;
     e.root = ERef{i}; e.cid = i; e.eq_next = ERef{i}; e.eq_size = 1; e.pterm = PTRef{10 + i}; e.forbid = ELRef_Undef; e.dist_classes = 0;
     e.exp_reason = PtAsgn(PTRef_Undef, l_Undef); e.exp_parent = ERef_Undef; e.exp_root = ERef{i}; e.exp_time_stamp = 0;
     e.symb = SymRef{sym}; e.argSize = nargs;
-    nodes[i].s.more[0] = ERef{a0}; nodes[i].s.more[1] = ERef{a1};
-    nodes[i].s.more[2] = ERef_Undef; nodes[i].s.more[3] = ERef_Undef;       // use-vector indices, not read here
+    nodes[i].more[0] = ERef{a0}; nodes[i].more[1] = ERef{a1};
+    nodes[i].more[2] = ERef_Undef; nodes[i].more[3] = ERef_Undef;       // use-vector indices, not read here
 }
 
 // ---------------------------------------------------------------- Map<PTRef,int,PTRefHash> of the duplicate checker: one slot per reason atom
@@ -52,13 +60,13 @@ extern "C" void stub_map_insert(DMap *, PTRef const & k, int const & d) { unsign
 // ---------------------------------------------------------------- vec<T> growth: static typed buffers, no free
 #define VCAP 24
 static ERef eref_bufs[2][VCAP]; static int n_eref_bufs;
-union RawAsgnBufs { PtAsgn b[2][VCAP]; RawAsgnBufs() {} ~RawAsgnBufs() {} };       // (no element constructors: no initialisation loop)
-static RawAsgnBufs asgn_raw; static int n_asgn_bufs;
-#define asgn_bufs asgn_raw.b
+extern "C" { extern PtAsgn euf_asgn_bufs[2][VCAP]; }       // typed storage in euf_rt.c (no element constructors, no union wrapper)
+static int n_asgn_bufs;
+#define asgn_bufs euf_asgn_bufs
 using EPair = opensmt::pair<ERef, ERef>;
-union RawPairBufs { EPair b[1][VCAP]; RawPairBufs() {} ~RawPairBufs() {} };
-static RawPairBufs pair_raw; static int n_pair_bufs;
-#define pair_bufs pair_raw.b
+extern "C" { extern EPair euf_pair_bufs[1][VCAP]; }
+static int n_pair_bufs;
+#define pair_bufs euf_pair_bufs
 extern "C" void stub_cap_eref(vec<ERef> * v, int min_cap) {
     if (v->cap >= min_cap) return;
     VASSERT(min_cap <= VCAP, "bound: vec<ERef> within its buffer");
@@ -87,7 +95,6 @@ static RawExplainer E;
 static long dummy_store[4];
 
 static unsigned cls[NN];                // harness union-find (quick-find): class representative of every enode
-static unsigned arg0[NN], arg1[NN];
 static unsigned eq_p[NM], eq_q[NM]; static bool asserted[NM]; static lbool eq_sgn[NM];
 static unsigned n_merges;
 static bool congruence_used;
@@ -100,15 +107,26 @@ static void build_forest() {
     // f(x1, x2), f(y1, y2): arguments are constants; the second application may also have the first one as an argument
     arg0[F1] = nondet_u8(); arg1[F1] = nondet_u8(); arg0[F2] = nondet_u8(); arg1[F2] = nondet_u8();
     VASSUME(arg0[F1] < NC && arg1[F1] < NC && arg0[F2] <= F1 && arg1[F2] <= F1);
+#ifdef QUICK_SHAPE
+    VASSUME(arg0[F2] < NC && arg1[F2] < NC);
+#endif
     VASSUME(arg0[F1] != arg0[F2] || arg1[F1] != arg1[F2]);      // hash-consing: two different enodes are different terms
     init_node(F1, 7, 2, arg0[F1], arg1[F1]); init_node(F2, 7, 2, arg0[F2], arg1[F2]);
     for (unsigned i = 0; i < NN; i++) cls[i] = i;
     n_merges = nondet_u8(); VASSUME(n_merges <= NM);
+#ifdef QUICK_SHAPE
+    VASSUME(n_merges == NM);    // QUICK_SHAPE: NM-1 asserted equalities between constants, then the congruence merge of the two applications
+#endif
     congruence_used = false;
     for (unsigned m = 0; m < NM; m++) if (m < n_merges) {
         unsigned p = nondet_u8(), q = nondet_u8();
         VASSUME(p < NN && q < NN && cls[p] != cls[q]);          // mergeLoop skips pairs that are already in one class
+#ifdef QUICK_SHAPE
+        bool congruence = m == NM - 1;
+        if (!congruence) VASSUME(p < NC && q < NC);
+#else
         bool congruence = nondet_bool();
+#endif
         PtAsgn reason(PTRef_Undef, l_Undef);
         if (congruence) {
             VASSUME((p == F1 && q == F2) || (p == F2 && q == F1));
@@ -121,10 +139,10 @@ static void build_forest() {
         }
         E.ex.storeExplanation(ERef{p}, ERef{q}, reason);
         // Egraph::merge: the classes are joined (quick-find roots and class sizes, which storeExplanation reads for balancing)
-        unsigned rp = nodes[p].s.e.root.x, rq = nodes[q].s.e.root.x;
-        if (nodes[rp].s.e.eq_size < nodes[rq].s.e.eq_size) { unsigned t = rp; rp = rq; rq = t; }
-        for (unsigned j = 0; j < NN; j++) if (nodes[j].s.e.root.x == rq) nodes[j].s.e.root = ERef{rp};
-        nodes[rp].s.e.eq_size += nodes[rq].s.e.eq_size;
+        unsigned rp = nodes[p].e.root.x, rq = nodes[q].e.root.x;
+        if (nodes[rp].e.eq_size < nodes[rq].e.eq_size) { unsigned t = rp; rp = rq; rq = t; }
+        for (unsigned j = 0; j < NN; j++) if (nodes[j].e.root.x == rq) nodes[j].e.root = ERef{rp};
+        nodes[rp].e.eq_size += nodes[rq].e.eq_size;
         join(cls, p, q);
     }
 }
@@ -133,6 +151,9 @@ extern "C" void h_euf_explain() {
     build_forest();
     unsigned x = nondet_u8(), y = nondet_u8();
     VASSUME(x < NN && y < NN && cls[x] == cls[y]);             // explanations are asked for two terms of one class
+#ifdef QUICK_SHAPE
+    VASSUME(x >= F1 && y >= F1 && x != y);                     // QUICK_SHAPE: the two applications
+#endif
     vec<PtAsgn> expl = E.ex.explain(ERef{x}, ERef{y});
     // the closure of exactly the returned equalities, closed under congruence for the two applications of f
     unsigned c2[NN]; for (unsigned i = 0; i < NN; i++) c2[i] = i;
@@ -147,7 +168,7 @@ extern "C" void h_euf_explain() {
     }
     if (c2[arg0[F1]] == c2[arg0[F2]] && c2[arg1[F1]] == c2[arg1[F2]]) join(c2, F1, F2);
     VASSERT(c2[x] == c2[y], "the explanation implies x = y (union-find of the returned equalities, closed under congruence)");
-    for (unsigned i = 0; i < NN; i++) VASSERT(nodes[i].s.e.exp_root.x == i, "cleanup restores the explanation classes (needed by the next explanation)");
+    for (unsigned i = 0; i < NN; i++) VASSERT(nodes[i].e.exp_root.x == i, "cleanup restores the explanation classes (needed by the next explanation)");
     VWITNESS("explained");
     if (n == 0 && x != y) { VWITNESS("pure-congruence-no-literals"); }
     if (x >= F1 && y >= F1 && x != y && n == 2 && congruence_used) { VWITNESS("congruence-explained-by-two-equalities"); }
